@@ -77,6 +77,12 @@ func CryptSection(cipherName string, pass, salt []byte, rounds int, in []byte, d
 	if k == nil {
 		return nil, errors.New("refsshkeys: bad bcrypt_pbkdf parameters")
 	}
+	return CryptSectionKey(cipherName, k, in, decrypt)
+}
+
+// CryptSectionKey is CryptSection with the 48 derived bytes (AES-256 key, IV)
+// supplied by the caller.
+func CryptSectionKey(cipherName string, k, in []byte, decrypt bool) ([]byte, error) {
 	blk, err := aes.NewCipher(k[:32])
 	if err != nil {
 		return nil, err
